@@ -85,6 +85,13 @@ def check_value(acc, T, tn, v):
             bad("hash", f"hash {hash(x)} != {hash(v)}")
         if not (x <= v and x >= v and not x < v and not x > v and x < v + 1 and x > v - 1):
             bad("order", "ordering against v-1, v, v+1 is wrong")
+        # the index protocol and the other conversions a plain int supports
+        if operator.index(x) != v or type(operator.index(x)) is not int:
+            bad("index", f"operator.index() = {operator.index(x)!r}")
+        if hex(x) != hex(v) or bin(x) != bin(v) or oct(x) != oct(v) or ("%x" % x) != ("%x" % v) or float(x) != float(v):
+            bad("int-conversions", f"hex / bin / oct / %x / float differ from the plain integer ({hex(x)}, {float(x)})")
+        if 0 <= v < 4 and (list(range(x)) != list(range(v)) or [10, 11, 12, 13, 14][x] != [10, 11, 12, 13, 14][v]):
+            bad("int-conversions", "range() / sequence index differ from the plain integer")
         want = V.enc_int(tn, v)
         got = x.to_bytes()
         if got != want:
@@ -109,7 +116,7 @@ def op_pairs(tn, seed):
     vals = {lo, hi, 0, 1, min(hi, 2), min(hi, 7)}
     for a, b in V.intervals(tn)[:3]:
         vals.update((a, b))
-    others = [0, 1, 2, 3, 7, -1, -3, 64, 255, 1 << 31, (1 << 64) - 1, 0.5, 2.5]
+    others = [0, 1, 2, 3, 7, -1, -3, 64, 255, 1 << 31, (1 << 64) - 1, 0.5, 2.5, float("inf"), float("-inf"), float("nan")]
     return sorted(v for v in vals if lo <= v <= hi), others
 
 
@@ -128,7 +135,7 @@ def check_ops(acc, T, tn, seed):
                     l, r = {"xb": (a, b), "bx": (b, a), "xx": (a, a), "xy": (a, b)}[order]
                     if name in ("lshift", "rshift") and (isinstance(l, float) or isinstance(r, float) or not (0 <= r <= 64) or abs(l) > (1 << 70)):
                         continue
-                    if name == "pow" and (isinstance(r, float) and l < 0 or abs(l) > 1000 or not (-2 <= r <= 8)):
+                    if name == "pow" and (isinstance(r, float) and (l < 0 or r != r or abs(r) == float("inf")) or isinstance(l, float) and (l != l or abs(l) == float("inf")) or abs(l) > 1000 or not (-2 <= r <= 8)):
                         continue
                     if name in ("and", "or", "xor") and (isinstance(l, float) or isinstance(r, float)):
                         continue
@@ -142,9 +149,14 @@ def check_ops(acc, T, tn, seed):
                     except Exception as e:  # noqa: BLE001
                         got = ("exc", type(e).__name__)
                     n += 1
-                    same = got == exp and (isinstance(exp, tuple) or type(got) is type(exp) or isinstance(exp, bool))
-                    if isinstance(exp, float) and exp != exp:
-                        same = isinstance(got, float) and got != got
+                    def eqn(a_, b_):
+                        if isinstance(a_, tuple) and isinstance(b_, tuple):
+                            return len(a_) == len(b_) and all(eqn(p_, q_) for p_, q_ in zip(a_, b_))
+                        if isinstance(a_, float) and isinstance(b_, float) and a_ != a_ and b_ != b_:
+                            return True
+                        return a_ == b_ and (type(a_) is type(b_) or isinstance(b_, bool))
+
+                    same = eqn(got, exp)
                     if not same:
                         acc.violation({"clause": "operator", "op": name, "order": order}, {"harness": "op", "type": tn, "a": a, "b": b, "op": name, "order": order}, f"{tn}: {name}({l!r}, {r!r}) with typed operand(s) [{order}] = {got!r}, plain int gives {exp!r}")
     return n
